@@ -454,7 +454,7 @@ func ruleC03d(c *Ctx, rule string) {
 func init() {
 	register(&PropSpec{
 		ID:          "C03",
-		Explanation: "Decides the structural clauses of the merge-on-read/flush plumbing: (a) a scan never stops by itself (path rule over every row loop), (b) raw pass-through happens only for untouched rows with identical layout and its consumer honours it, (c) each key present in both stores is emitted once (one removal context), (d) a flush writes file ∪ memstore with the memstore's own offsets, (e) file store and memstore are swapped and snapshotted atomically (lock regions). Added clauses: the read buffer is reused by a flush only when rows are not retained (!shouldSort); the ALTER path (= C15.c).",
+		Explanation: "Decides the structural clauses of the merge-on-read/flush plumbing: (a) a scan never stops by itself (path rule over every row loop), (b) raw pass-through happens only for untouched rows with identical layout and its consumer honours it, (c) each key present in both stores is emitted once (one removal context), (d) a flush writes file ∪ memstore with the memstore's own offsets, (e) file store and memstore are swapped and snapshotted atomically (lock regions). Added clauses: the read buffer is reused by a flush only when rows are not retained (!shouldSort); the ALTER path (= C15.c). Further clauses: queue-driven tree traversals enqueue the children of every node they pop; a forced flush completes only after the flush call.",
 		NotDecided:  []string{"Sequence.Merge arithmetic for gaps/overlaps/leads (values)", "which periods the 10th (truncating) flush removes", "crash-point behaviour (see C02); the clean-restart resume wiring is decided (C03.f)"},
 		Assumptions: []string{"io.EOF from binary.Read means end of the file's rows", "sync.RWMutex semantics"},
 		Rules:       []func(*Ctx){func(c *Ctx) { ruleC03h(c, "C03.h") }, func(c *Ctx) { ruleC03i(c, "C03.i") }, func(c *Ctx) { ruleC03a(c, "C03.a") }, func(c *Ctx) { ruleC03b(c, "C03.b") }, func(c *Ctx) { ruleC03c(c, "C03.c") }, func(c *Ctx) { ruleC03d(c, "C03.d") }, func(c *Ctx) { ruleLockRegions(c, "C03.e") }, func(c *Ctx) { ruleC02f(c, "C03.f") }, func(c *Ctx) { ruleC15c(c, "C03.g") }},
